@@ -203,13 +203,3 @@ pub fn gnu_complete<const NB: usize, const NL: usize, const NS: usize, const SO:
     }
 }
 
-#[kani::proof]
-#[kani::unwind(8)]
-pub fn complete_elf32_nb1_nl1_n2_present() {
-    gnu_complete::<1, 1, 2, 1>(Class::ELF32, false);
-}
-#[kani::proof]
-#[kani::unwind(8)]
-pub fn complete_elf32_nb1_nl1_n2_absent() {
-    gnu_complete::<1, 1, 2, 1>(Class::ELF32, true);
-}
